@@ -252,6 +252,68 @@ def wrun (st : Store) : List WEvent → Store
   | [] => st
   | e :: es => wrun (wstep st e) es
 
+/-! ### The analysis database is keyed by `source_key_for_uri`, not by URI
+
+`Doc.analysed` above is the text a URI last handed to `project.set_source_text(key, ·)`.  The
+project stores it under `source_key_for_uri(uri)` (`state/path.rs`): `SourceKey::Path` of
+`uri_to_path(uri)` — `Url::to_file_path`, which looks at the path only, not at the scheme, the
+query or the fragment — else `SourceKey::Virtual(uri)`.  `key u` is the number of the key of URI
+number `u`; what the analysis reads for `u` is `db (key u)`. -/
+
+/-- `Project` sources by key number. -/
+def Db := Nat → Option (List Char)
+
+def Db.set (db : Db) (k : Nat) (t : Option (List Char)) : Db :=
+  fun j => if j = k then t else db j
+
+/-- The `set_source_text` of `index_document_impl` (same guards as `step … (.watchedChanged ·)`). -/
+def dbIndex (key : Nat → Nat) (docs : Store) (db : Db) (u : Nat) : Option (List Char) → Db
+  | none => db
+  | some disk =>
+    match docs u with
+    | some doc =>
+      if doc.isOpen then db else if doc.text = disk then db else db.set (key u) (some disk)
+    | none => db.set (key u) (some disk)
+
+/-- The `set_source_text` / `remove_source` calls of every handler, next to `wstep`. -/
+def dbStep (key : Nat → Nat) (docs : Store) (db : Db) : WEvent → Db
+  | .doc u (.didOpen _ t) => db.set (key u) (some t)
+  | .doc u (.didChange _ cs) =>
+    if cs.isEmpty then db
+    else match docs u with
+      | none => db
+      | some doc =>
+        match applyContentChanges doc.text cs with
+        | .ok t => db.set (key u) (some t)
+        | _ => db
+  | .doc _ .didClose => db
+  | .doc _ .didSave => db
+  | .doc u (.watchedChanged disk) => dbIndex key docs db u disk
+  | .doc u .watchedDeleted =>
+    match docs u with
+    | some doc => if doc.isOpen then db else db.set (key u) none
+    | none => db
+  | .renamed o n disk =>
+    match docs o with
+    | some d =>
+      if d.isOpen then ((db.set (key o) none).set (key n) none).set (key n) (some d.text)
+      else dbIndex key (docs.set o none) (db.set (key o) none) n disk
+    | none => dbIndex key docs db n disk
+
+/-- Documents by URI and sources by key. -/
+structure KStore where
+  docs : Store
+  db : Db
+
+def kstep (key : Nat → Nat) (st : KStore) (e : WEvent) : KStore :=
+  { docs := wstep st.docs e, db := dbStep key st.docs st.db e }
+
+def krun (key : Nat → Nat) (st : KStore) : List WEvent → KStore
+  | [] => st
+  | e :: es => krun key (kstep key st e) es
+
+def kInit : KStore := { docs := fun _ => none, db := fun _ => none }
+
 /-! ### `semanticTokens/full/delta` -/
 
 /-- Length of the longest common prefix (`while prefix < min_len && previous[prefix] ==
@@ -280,6 +342,43 @@ def deltaEdits {α : Type} [DecidableEq α] (previous current : List α) : List 
     [{ start := pre,
        deleteCount := previous.length - (pre + suf),
        data := (current.drop pre).take (current.length - suf - pre) }]
+
+/-! ### The semantic-token cache: `state/cache.rs`, `semantic_tokens_full`,
+`semantic_tokens_full_delta` -/
+
+/-- The entry of one URI in `ServerState.semantic_tokens` (`SemanticTokensCache { result_id,
+tokens }`) and the global counter `semantic_tokens_id` result ids are drawn from. -/
+structure TokSrv (α : Type) where
+  nextId : Nat
+  cache : Option (Nat × List α)
+deriving Repr, DecidableEq
+
+/-- `SemanticTokensResult::Tokens` / `SemanticTokensFullDeltaResult::{Tokens, TokensDelta}`. -/
+inductive TokAns (α : Type) where
+  | full (id : Nat) (data : List α)
+  | delta (id : Nat) (edits : List (TokEdit α))
+deriving Repr, DecidableEq
+
+/-- `semantic_tokens_full`: `store_semantic_tokens` draws a new id and overwrites the entry. -/
+def tokFull {α : Type} (s : TokSrv α) (cur : List α) : TokSrv α × TokAns α :=
+  ({ nextId := s.nextId + 1, cache := some (s.nextId, cur) }, .full s.nextId cur)
+
+/-- `semantic_tokens_full_delta`: the entry is read, then overwritten with the new result; edits
+are answered only when the cached result id IS the `previous_result_id` of the request
+(`semantic_tokens_delta_edits` always answers `Some`), otherwise the full array. -/
+def tokDelta {α : Type} [DecidableEq α] (s : TokSrv α) (prevId : Nat) (cur : List α) :
+    TokSrv α × TokAns α :=
+  let s' : TokSrv α := { nextId := s.nextId + 1, cache := some (s.nextId, cur) }
+  match s.cache with
+  | some (id, prev) =>
+    if id = prevId then (s', .delta s.nextId (deltaEdits prev cur)) else (s', .full s.nextId cur)
+  | none => (s', .full s.nextId cur)
+
+/-- `remove_document` / `rename_document`: the entry of the URI goes. -/
+def tokForget {α : Type} (s : TokSrv α) : TokSrv α := { s with cache := none }
+
+/-- A token request for another URI: only the global counter moves. -/
+def tokOther {α : Type} (s : TokSrv α) : TokSrv α := { s with nextId := s.nextId + 1 }
 
 /-- Position and length of one semantic token as `semantic_tokens_to_lsp` computes them from the
 token's byte range `[a, b)`: `offset_to_line_col(content, a)` and the UTF-16 length of
@@ -498,7 +597,57 @@ def applyTokEdits {α : Type} (held : List α) : List (Impl.TokEdit α) → List
   | [] => held
   | e :: es => applyTokEdits (applyTokEdit held e) es
 
+/-- The editor consumes a token answer: a full array replaces what it holds, edits are applied to
+the array it holds; either way it now holds the answer's result id. -/
+def tokConsume {α : Type} (held : Option (Nat × List α)) : Impl.TokAns α → Option (Nat × List α)
+  | .full id data => some (id, data)
+  | .delta id edits => held.map fun h => (id, applyTokEdits h.2 edits)
+
 end Spec
+
+/-! ### Token sessions: the server's cache and the editor's array -/
+
+/-- Server cache of the document's URI and what the editor holds (result id, token array). -/
+structure TokState (α : Type) where
+  srv : Impl.TokSrv α
+  held : Option (Nat × List α)
+
+/-- What can happen in a token session.  `cur` is the token array of the text the document has
+when the request is handled (arbitrary: the text changes between requests); `consume = false` is
+an answer the editor drops — a request cancelled by the next key stroke, or the request of another
+view of the same document: the server has cached the result all the same. -/
+inductive TokEv (α : Type) where
+  | full (cur : List α) (consume : Bool)
+  /-- `semanticTokens/full/delta` naming the result id the editor holds -/
+  | delta (cur : List α) (consume : Bool)
+  /-- the server drops the entry (`remove_document`, `rename_document`) -/
+  | forget
+  /-- a token request for another document -/
+  | other
+
+/-- `none`: not a session an editor produces (a delta request without a held result). -/
+def tokStep {α : Type} [DecidableEq α] (st : TokState α) : TokEv α → Option (TokState α)
+  | .full cur c =>
+    let r := Impl.tokFull st.srv cur
+    some { srv := r.1, held := if c then Spec.tokConsume st.held r.2 else st.held }
+  | .delta cur c =>
+    match st.held with
+    | none => none
+    | some h =>
+      let r := Impl.tokDelta st.srv h.1 cur
+      some { srv := r.1, held := if c then Spec.tokConsume st.held r.2 else st.held }
+  | .forget => some { st with srv := Impl.tokForget st.srv }
+  | .other => some { st with srv := Impl.tokOther st.srv }
+
+def tokRun {α : Type} [DecidableEq α] (st : TokState α) : List (TokEv α) → Option (TokState α)
+  | [] => some st
+  | e :: es =>
+    match tokStep st e with
+    | some st' => tokRun st' es
+    | none => none
+
+/-- A server that has answered nothing, an editor that holds nothing. -/
+def tokInit {α : Type} : TokState α := { srv := { nextId := 0, cache := none }, held := none }
 
 /-- What the editor sends for a change computed on its buffer: the same range, the inserted text
 as characters (JSON string). -/
